@@ -40,6 +40,8 @@ def build_envs(group):
             envs = envs.shuffle(a["seeds"])
         elif name == "ope_rewards":
             envs = envs.ope_rewards(a["rewards_type"])
+        elif name == "params":
+            envs = envs.params(K.dec(a["params"]))
         else:
             envs = getattr(envs, name)(**a)
     return list(envs)
@@ -81,6 +83,8 @@ def build_learner(spec):
         return K.RecordingLearner(**kw)
     if kind == "info":
         return K.InfoLearner(**kw)
+    if kind == "plearner":
+        return K.ParamLearner(**kw)
     raise ValueError(kind)
 
 
@@ -97,6 +101,8 @@ def build_evaluator(spec):
         return K.fn_evaluator
     if kind == "rows":
         return K.RowsEvaluator(**kw)
+    if kind == "tap":
+        return K.TapEvaluator(build_evaluator(kw["inner"]), kw.get("tag", "tap"))
     if kind == "counting":
         return K.CountingEvaluator(build_evaluator(kw["inner"]), kw.get("tag", "cnt"))
     if kind == "faultyval":
